@@ -143,7 +143,8 @@ def new_agg():
     return {'evals': 0, 'scenarios': 0, 'keys': {}, 'states': set(), 'probes': {},
             'faults': {}, 'steps': 0, 'events': 0, 'violations': [],
             'samples': [], 'discarded': {}, 'known_hits': {},
-            'harness': [], 'classes': {}, 'exhaustive': [], 'sigs': {}}
+            'harness': [], 'classes': {}, 'exhaustive': [], 'sigs': {},
+            'schedules': set()}
 
 
 def merge_counts(dst, src):
@@ -160,6 +161,9 @@ def absorb(agg, scn, out, findings, keep_samples=2):
     if out.discarded:
         agg['discarded'][out.discarded] = \
             agg['discarded'].get(out.discarded, 0) + 1
+
+    if scn.get('schedule') and len(scn.get('actors', ())) > 1:
+        agg['schedules'].add(int(scn_digest(scn['schedule'])[:12], 16))
 
     if out.nontrivial and out.case_key is not None:
         k = int(out.case_key[:14], 16)
@@ -203,6 +207,7 @@ def merge_agg(dst, src):
 
     dst['steps'] += src['steps']
     dst['events'] += src['events']
+    dst['schedules'] |= src.get('schedules', set())
     dst['violations'].extend(src['violations'])
     dst['harness'].extend(src['harness'])
     dst['exhaustive'].extend(src.get('exhaustive', ()))
@@ -587,6 +592,10 @@ def build_evidence(mod, pid, tier, master, agg, wall, search_s, nviol,
         'faults_fired': dict(sorted(agg['faults'].items())),
         'probes': probes,
         'distinct_states': len(agg['states']),
+        'distinct_interleavings': len(agg['schedules']),
+        'interleaving_measure': 'distinct explicit schedules (sequence of '
+                                'actor ids, one per step) among runs with '
+                                '>= 2 actors',
         'state_measure': getattr(mod, 'STATE_MEASURE', ''),
         'discarded_runs': dict(sorted(agg['discarded'].items())),
         'known_hits': dict(sorted(agg['known_hits'].items())),
